@@ -3,6 +3,7 @@
    the view term; the explicit index mappings of ranges and reversals; writes through a view. *)
 From Coq Require Import List ZArith NArith Bool Arith Lia.
 From EasyML Require Import Base.Sx Model.Shape Model.MatrixViews.
+From EasyML Require Model.Views.
 Import ListNotations.
 Local Open Scope N_scope.
 
@@ -18,6 +19,15 @@ Definition part_ok (len : N) (p : part) : Prop :=
 Definition range_ok (r : index_range) (max : N) : Prop :=
   ir_length r = 0 \/ ir_start r + ir_length r <= max.
 
+(* a tensor view under MatrixRefTensor honours the TensorRef contract and resolves inside the flat
+   root made of its leaves' stores (established for every constructed view in Proofs/C12Tensor.v
+   from the C02 development) *)
+Definition tensor_ok (len : N) (c : Views.cview) : Prop :=
+  forall row column,
+    if (row <? Views.len_at (Views.c_shape c) 0) && (column <? Views.len_at (Views.c_shape c) 1)
+    then exists p, try_get (VOverTensor c) row column = Cell p /\ p < len
+    else try_get (VOverTensor c) row column = Absent.
+
 Inductive wf (len : N) : mview -> Prop :=
 | wf_matrix rows cols : rows * cols = len -> wf len (VMatrix rows cols)
 | wf_part p : part_ok len p -> wf len (VPart p)
@@ -25,7 +35,8 @@ Inductive wf (len : N) : mview -> Prop :=
     wf len (VRange rows cols src)
 | wf_reverse rr rc src : wf len src -> wf len (VReverse rr rc src)
 | wf_map src : wf len src -> wf len (VMap src)
-| wf_via_tensor n0 n1 src : wf len src -> wf len (VViaTensor n0 n1 src).
+| wf_via_tensor n0 n1 src : wf len src -> wf len (VViaTensor n0 n1 src)
+| wf_over_tensor c : tensor_ok len c -> wf len (VOverTensor c).
 
 Definition inside (v : mview) (row column : N) : bool :=
   (row <? view_rows v) && (column <? view_cols v).
@@ -36,8 +47,8 @@ Theorem view_contract len v : wf len v -> forall row column,
   then exists p, try_get v row column = Cell p /\ p < len
   else try_get v row column = Absent.
 Proof.
-  induction 1 as [rows cols Hlen|p Hp|rows cols src Hsrc IH Hr Hc|rr rc src Hsrc IH|src Hsrc IH|n0 n1 src Hsrc IH];
-    intros row column; unfold inside; cbn [view_rows view_cols try_get].
+  induction 1 as [rows cols Hlen|p Hp|rows cols src Hsrc IH Hr Hc|rr rc src Hsrc IH|src Hsrc IH|n0 n1 src Hsrc IH|c Hc];
+    intros row column; [| | | | | |exact (Hc row column)]; unfold inside; cbn [view_rows view_cols try_get].
   - destruct (row <? rows) eqn:Er; cbn [andb]; [|reflexivity].
     destruct (column <? cols) eqn:Ec; [|reflexivity].
     apply N.ltb_lt in Er, Ec. eexists; split; [reflexivity|]. nia.
